@@ -16,7 +16,8 @@ Lean model of the whole single-file pipeline (op `pipeline`: RootCtx.compile -> 
 `Rattr.C10.C10_xattr_*` (lean/RattrProofs/Props/C10.lean) are the theorems about that path.
 
 Selection: the getattr-family slots, `sorted` and the call slots always; of the other slot families a
-seeded sample in the quick tier, all of them in the thorough tier.
+seeded sample in the quick tier, all of them in the thorough tier; the module-level class-base families
+(one module per family) always.
 """
 from __future__ import annotations
 
@@ -150,6 +151,19 @@ def run_stage(res, tier, rng, model, probes):
         extra.append(("target.py", cs.module_source(ps) + "\n\n" + cs.wrappers_source(ps, "same", cs.ARG_STYLES)))
         res.count("callers:slot-family:" + sid)
         res.count("callers:probes", len(ps))
+    # round 4: the class statements of the class-base families (every expression class as a base, classes
+    # with and without an initialiser, Enum / NamedTuple-looking bases): the Lean file analyser
+    # (`FileA.classAnalyse` -> `FileA.baseNames`, safe naming; theorem C10_site_baseNames) must print the
+    # same document as the real pipeline
+    by_m = {}
+    for p in probes:
+        if p.slot.level == "module" and p.slot.id.startswith("class-base"):
+            by_m.setdefault(p.slot.id, []).append(p)
+    for sid, ps in by_m.items():
+        extra.append(("target.py", cs.module_source(ps)))
+        res.count("callers:slot-family:" + sid)
+        res.count("callers:probes", len(ps))
+        chosen.append(sid)
     n0, d0 = res.evaluations, len(res.disagreements)
     cases = pl.run_pipeline_stage(res, rng, 0, model, cli_sample=2, curated=False, extra=extra)
     res.count("callers:modules", len(cases))
